@@ -346,7 +346,7 @@ def run_c03(tier):
         fams['resume'] = fam_resume(1) + fam_resume(2)[::14]
         fams['chars'] = fam_chars()
         fams['labels'] = fam_labels() + fam_bigindex()
-        fams['labelflow'] = labelflow_family()[::8]
+        fams['labelflow'] = labelflow_family()[::16]
         standalone = fam_templates()[::12] + fam_chars()[::9] + [g + ' ' + t for _, g in GADGETS for _, t in TRIGGERS][::2]
     else:
         fams['templates'] = fam_templates()
